@@ -12,8 +12,11 @@ PROP = {
             "strings, numbers, structs, empty, reversed and over-long ranges, nested arrays, drops and drops of drops inside arrays, "
             "typed containers with nil, maps with nil values, []byte, every integer width, integers beyond 2^53 next to floats, "
             "non-ASCII strings) x 32 calls including arity errors; arrays of 13..3000 elements; random arrays to length 8 x random "
-            "calls and random chains of 2..4 filters; a sample of cases again as whole templates through the engine and the model's "
-            "renderer. A case is non-trivial when the real code returns a value; distinct by case line. "
+            "calls and random chains of 2..4 filters; mixed-kind arrays of length 0..13 (700 quick / 12 000 thorough: integers of several "
+            "widths, floats, strings, nil, booleans, maps, arrays, ranges, integers beyond 2^53 next to the floats they round to, "
+            "maps whose key k holds any of these, few-valued arrays full of ties, repeated elements) x sort, sort: k, sort_natural, "
+            "sort_natural: k, every fifth in all representations; a sample of cases again as whole templates through the engine and "
+            "the model's renderer. A case is non-trivial when the real code returns a value; distinct by case line. "
             "alias: `x | f1: a0 | f2: a1 ...` with x a real []any (or typed slice) realised as backing[off:off+len] of a backing array "
             "of off+len+spare elements whose other elements hold a sentinel (6 layouts: full capacity, 1/2/7 spare, offset 1 and 2), "
             "every other slice with 2 spare elements: every array of length 0..2 (thorough: 0..3) over the nine-element universe x 6 "
@@ -25,19 +28,24 @@ PROP = {
             "lies in the receiver's backing array (pointer range), and the indices of the caller's arrays (up to cap) whose deep snapshot "
             "changed; non-trivial = the real code returns a value",
     "trusted_base": COMMON_TB + [
-        "Go's sort.Sort is taken to return a permutation that is sorted for its Less when Less is a strict weak order, with ties in "
-        "unspecified order (insertion sort, hence stable, up to 12 elements); fmt.Sprint and reflect.DeepEqual are used by the "
-        "oracle's reference implementations as given",
+        "Go's sort.Sort (go1.23 sort/zsortinterface.go): up to 12 elements it is insertionSort, transcribed loop by loop in "
+        "Liquid/InsertionSort.lean and compared element by element on every such case; beyond 12 elements it is taken to return a "
+        "permutation that is sorted for its Less when Less is a strict weak order, with ties in unspecified order; fmt.Sprint and "
+        "reflect.DeepEqual are used by the oracle's reference implementations as given",
     ],
     "assumptions": [
         "Liquid/Filters/Arr.lean, Convert.lean (receiver conversion), Compare.lean (Less), Lookup.lean (property lookup), Sprint.lean "
         "describe filters/standard_filters.go, filters/sort_filters.go, values/sort.go, values/convert.go, values/compare.go after the "
         "fix patches D4-uniq-nil, uniq-uncomparable-values, D4-sort-natural, sort-key-defined-string-type, array-nil-element, "
         "drops-in-arrays, size-of-range: checked by the arrf stream on every run",
-        "sort results are compared in canonical form (sequence of sort keys + multiset of elements): the order of elements that "
-        "Less does not separate is unspecified in Go (unstable sort) and is not compared; on arrays where Less is not a strict weak "
-        "order (numbers mixed with strings or nil, integers beyond 2^53 mixed with floats) the model answers unmodelled and only "
-        "the permutation clause is checked, by the oracle",
+        "sort results of at most 12 elements are compared exactly, element by element, on every array -- mixed kinds included (numbers "
+        "next to strings or nil, integers beyond 2^53 next to floats): there sort.Sort is an insertion sort, whose result is "
+        "determined for every comparator, and the model runs the same loops over the same comparators; on such arrays 'ascending' "
+        "is not defined (Less is not a strict weak order) and the theorems claim permutation, stability and the exact list only",
+        "only beyond 12 elements: sort results are compared in canonical form (sequence of sort keys + multiset of elements), since the "
+        "order of elements that Less does not separate is unspecified in Go (pdqsort is unstable) and is not compared; on arrays of "
+        "more than 12 elements where Less is not a strict weak order the model answers unmodelled and only the permutation clause "
+        "is checked, by the oracle",
         "outside the model (counted as unmodelled): pointer identity in uniq, fmt of pointers and time.Time, case mapping outside "
         "the table of Liquid/Unicode.lean in sort_natural, ranges of more than a million items",
         "Liquid/Heap.lean describes Go's slice operations (index, element assignment, reslice, make, append with its in-place case, "
@@ -52,18 +60,23 @@ PROP = {
 }
 
 TEXT = {
-    "text": "Theorems for every list (no bound): sort returns a permutation of its input (any array) that is ascending for "
+    "text": "Theorems for every list (no bound): Go's insertion sort (all of sort.Sort up to 12 elements, modelled loop by loop) "
+            "returns a permutation and is stable for EVERY comparator, sorts whenever the comparator is a strict weak order on the "
+            "elements, and then equals List.mergeSort; a comparator that panics or is outside the model matters exactly when the "
+            "comparison is made. sort returns a permutation of its input (any array, any length) that is ascending for "
             "values.Less on every homogeneous array (all integers, all numbers with integers inside 2^53, all strings, all "
-            "booleans) -- totality and transitivity of the order are proved per kind; sort: key is a permutation, ascending in the "
-            "key, with entries lacking the key (or holding nil) first; sort_natural is a permutation ascending in its "
-            "case-folded text; reverse reverses; uniq is a sublist with pairwise different elements (Go equality: 1 and 1.0 "
+            "booleans) -- totality and transitivity of the order are proved per kind; up to 12 elements the model answers every "
+            "array, mixed kinds included, with exactly Go's list (sort_model), and the sort is stable; sort: key is a permutation, "
+            "ascending in the key, with entries lacking the key (or holding nil) first, likewise exact and stable up to 12 elements; "
+            "sort_natural is a permutation ascending in its case-folded text, stable up to 12 elements; reverse reverses; uniq is a sublist with pairwise different elements (Go equality: 1 and 1.0 "
             "differ), represents every input element, and keeps an appended element exactly when nothing equal precedes it; compact "
             "removes exactly the nils; concat appends; first/last agree with a[0]/a[-1] and a.first/a.last (nil when empty); size "
             "is the element count (also of a range); join is the separator-intercalated fmt.Sprint of the non-nil elements; map is "
             "the per-element property lookup; typed slices, fixed arrays, ranges, ordered maps and maps convert to the same "
             "[]any as a generic slice with the same contents (drops inside resolved, nil kept); compact/reverse/first/last/uniq "
             "are proved through ApplyFilter/Call with the standard filter table, a nil receiver is the empty array and a "
-            "non-array receiver a TypeError. The model is compared with the real code on every case; an independent oracle "
+            "non-array receiver a TypeError; sort through ApplyFilter/Call is sortF on every receiver of up to 12 elements. The model "
+            "is compared with the real code on every case (sort results element by element up to 12 elements); an independent oracle "
             "(reference implementations over value trees) checks permutation, order, nil-keys-first, every other filter's exact "
             "result, agreement of all representations, and that neither the Go value passed in nor a second rendering of it changes. "
             "NO WRITES INTO THE INPUT (Proofs/C15Heap.lean, on the slice-memory model Liquid/Heap.lean: a store of backing arrays, slice "
@@ -93,8 +106,10 @@ TEXT = {
             "with a TypeError; drops inside []any / MapSlice reached join, uniq, compact and sort_natural unresolved ({x} {y}); "
             "size of a range was 0. The no-write clause is a theorem about the slice-memory model (elements are values there: writes "
             "through nested slices/maps are outside it and carried by the deep-snapshot oracles).",
-    "technique": "Lean 4 proof (List.mergeSort with order properties proved per kind; induction over lists) + model/implementation "
-                 "correspondence with a canonical form for unstable sorts + independent reference-implementation oracle and "
-                 "deep-copy mutation check on the implementation + Lean 4 proof on a slice-memory model (write log; induction over "
-                 "loops and pipelines; refinement to the pure model) tied by a stream that observes aliasing and changed locations",
+    "technique": "Lean 4 proof (Go's insertionSort transcribed and proved a stable permutation for every comparator, equal to "
+                 "List.mergeSort on strict weak orders; order properties proved per kind; induction over lists) + model/implementation "
+                 "correspondence, exact up to 12 elements and with a canonical form for the unstable sort beyond + independent "
+                 "reference-implementation oracle and deep-copy mutation check on the implementation + Lean 4 proof on a slice-memory "
+                 "model (write log; induction over loops and pipelines; refinement to the pure model) tied by a stream that observes "
+                 "aliasing and changed locations",
 }
